@@ -7,6 +7,10 @@
     D1 <layout> <hex>                 →  ok <rec> <rest length> | fail
     RI <layout> <rec> <hex>           →  ok <rec> <rest length> | fail     (obj.Read(in) on an existing object <rec>;
                                                                             ProfilePack: the transaction is built afresh)
+    OPS <type> <rec> <op> <op> …      →  ok <hex of the final encoding> <final rec> | fail
+                                          a history on one object:  P!<Type.Method>!<items>  SetProfile(steps)
+                                          K!<Type.Method>!<a…>  SetStack(ints)   O!<Type.Method>!<k>  SetCtr/SetTrue(k)
+                                          A!<name>=<val>  field assignment       R!<hex>  Read (ProfilePack: fresh transaction)
     ES <item>|<item>|…                →  <hex>                       (ToBytesStep / service.ToBytes; item = <code>:<type>:<rec>)
     DS <step|svc> <hex>               →  ok <code>:<rec>@<consumed>|… | fail <k>   (ReadStep until the input is used up)
 
@@ -19,6 +23,7 @@
 import Golib.Step.Layouts
 import Golib.Step.Alt
 import Golib.Step.Reuse
+import Golib.Step.Setters
 import Driver.Common
 
 open Step Drv
@@ -109,6 +114,30 @@ def parseChoice (s : String) : Option Choice :=
     | [k, v] => (parseNat v).map (fun n => (k, n))
     | _ => none)).map (fun (tbl : List (String × Nat)) => fun nm => tbl.lookup nm)
 
+def parseOpArg (kind : String) (payload : String) : Option SArg :=
+  match kind with
+  | "P" => (if payload == "-" then some [] else (payload.splitOn "|").mapM (fun (it : String) =>
+      match it.splitOn ":" with
+      | [c, t, r] => do
+        let c ← parseNat c
+        let l ← ((stepTable ++ unregisteredSteps ++ serviceTable).find? (fun (_, n, _) => n == t)).map (fun (_, _, l) => l)
+        let x ← parseRec r
+        pure (⟨c, l, x⟩ : Item)
+      | _ => none)).map SArg.steps
+  | "K" => (parseVal payload).map (fun v => SArg.ints v.toInts)
+  | "O" => (parseInt payload).map SArg.int
+  | _ => none
+
+def parseOpC08 (s : String) : Option Op :=
+  match s.splitOn "!" with
+  | ["R", hex] => (ofHex hex).map Op.read
+  | ["A", fv] => (parseField fv).map (fun (f, v) => Op.assign f v)
+  | [k, m, payload] =>
+    match setterTable.lookup m, parseOpArg k payload with
+    | some st, some a => some (Op.set st a)
+    | _, _ => none
+  | _ => none
+
 def allTagged : List (Nat × String × L) := stepTable ++ unregisteredSteps ++ serviceTable
 
 def layoutByName (nm : String) : Option L :=
@@ -154,6 +183,17 @@ def answer (line : String) : String :=
       | some (e, rest) => s!"ok {showRec l e} {rest.length}"
       | none => "fail"
     | _, _ => "bad-op"
+  | "OPS" :: nm :: r0 :: ops =>
+    match layoutByName nm, parseRec r0, ops.mapM parseOpC08 with
+    | some l, some o, some ops =>
+      let rd : Rec → D Rec := if nm == "ProfilePack" then profilePackReadInto else l.readInto
+      match applyOps rd ops o with
+      | some p =>
+        let fs := l.fieldShapes
+        let body := if fs.isEmpty then "-" else ";".intercalate (fs.map (fun (f, _) => s!"{f}={showVal (p f)}"))
+        s!"ok {hexOf (l.write p)} {body}"
+      | none => "fail"
+    | _, _, _ => "bad-op"
   | ["RI", nm, prior, hex] =>
     match layoutByName nm, parseRec prior, ofHex hex with
     | some l, some o, some bs =>
